@@ -413,13 +413,18 @@ func convTypeToTarget(source interface{}, target reflect.Type) (interface{}, err
 			}
 		}
 		if isBasicNumberKind(target.Kind()) {
-			return convToBasicNumber(source, target)
+			n, err := convToBasicNumber(source, target)
+			if err != nil {
+				return nil, err
+			}
+			return reflect.ValueOf(n).Convert(target).Interface(), nil
 		}
 		if target.Kind() == reflect.String {
-			if IsNull(source) {
-				return "", nil
+			s := ""
+			if !IsNull(source) {
+				s = fmt.Sprintf("%v", source)
 			}
-			return fmt.Sprintf("%v", source), nil
+			return reflect.ValueOf(s).Convert(target).Interface(), nil
 		}
 		return nil, fmt.Errorf("convTypeToTarget %T not conv to %v", source, target)
 	}
